@@ -1466,4 +1466,33 @@ theorem time_nondecreasing_2D (p : Par ℝ) (f : Flags) (hdt : 0 ≤ (mkCtx p f)
   intro a b hab
   exact div_le_div_of_nonneg_right hab (by norm_num)
 
+
+open Snow.S2D in
+/-- **t_sol on the published history (2D)**: every row the 2D solidification loop saved was written at
+some solidification step `j` from that step's state: its `iceMassFraction` entries are `iceFrac` of that
+state's field, and the fraction the 90 % test of step `j` used is `sigmaOf` of exactly these entries. -/
+theorem published_solid_rows_2D (p : Par ℝ) (f : Flags) (T0C : ℝ) (prof : List ℝ) (NtExp iEnd : ℕ) :
+    ∀ r ∈ (solFin2D (mkCtx p f) NtExp prof iEnd (st2D p f T0C prof NtExp iEnd)).rows.toList,
+      ∃ j, j < ((shelfK prof).drop iEnd).length ∧
+        r.ice = iceFrac (mkCtx p f) (solSt2D p f T0C prof NtExp iEnd j).T ∧
+        (solSt2D p f T0C prof NtExp iEnd j).sg = sigmaOf (mkCtx p f) r.ice := by
+  have := saved_rows_from_states (solStep2D (mkCtx p f) NtExp iEnd) (fun s => s.rows)
+    (fun s' i x => S2D.Row.mk ((mkCtx p f).dt * ofNat' iEnd + (mkCtx p f).dt * ofNat' i) (x - kelvin)
+      (s'.T.map (· - kelvin)) s'.w)
+    (by
+      intro i s x
+      simp only [solStep2D, solStepSt]
+      split_ifs
+      · right; rfl
+      · left; rfl)
+    ((shelfK prof).drop iEnd) (solInit2D (mkCtx p f) (st2D p f T0C prof NtExp iEnd)) rfl
+  intro r hr
+  obtain ⟨j, hj, e⟩ := this r hr
+  have hpost := stateAt_post (solStep2D (mkCtx p f) NtExp iEnd)
+    (fun s => s.w = iceFrac (mkCtx p f) s.T ∧ s.sg = sigmaOf (mkCtx p f) s.w) _
+    (solInit2D (mkCtx p f) (st2D p f T0C prof NtExp iEnd)) (fun _ _ _ => ⟨rfl, rfl⟩) j hj
+  refine ⟨j, hj, ?_, ?_⟩
+  · rw [e]; exact hpost.1
+  · rw [e]; exact hpost.2
+
 end Snow.C13
